@@ -218,3 +218,68 @@ def inline_block_wrappers(idx):
             n.update(body)
             count += 1
     return count
+
+
+def _dereturn(stmts):
+    """`if c { A; return; } B` at the top level of a unit-returning helper is `if c { A } else { B }`: a helper body can then be
+    spliced into its caller without its `return` looking like the caller's"""
+    out = []
+    for i, st in enumerate(stmts):
+        e = st.get("e") if st.get("k") == "expr" else None
+        if e is not None and e.get("k") == "if" and e.get("else") is None and e["then"].get("k") == "block" and e["then"]["stmts"]:
+            last = e["then"]["stmts"][-1]
+            le = last.get("e") if last.get("k") == "expr" else last
+            if isinstance(le, dict) and le.get("k") == "return" and le.get("e") is None:
+                new_if = dict(e)
+                new_if["then"] = dict(e["then"], stmts=e["then"]["stmts"][:-1])
+                new_if["else"] = {"k": "block", "stmts": _dereturn(stmts[i + 1:])}
+                out.append(dict(st, e=new_if))
+                return out
+        out.append(st)
+    return out
+
+
+def inline_private_methods(idx, bases=("StyleSheetOutput", "StepParser")):
+    """A private method of the output type / the step parser that other methods of the same type call on `self`
+    (`self.push_space()`, `self.push_integer(..)`, `self.next_raw_token()`) is part of its callers: its calls are replaced, in the
+    syntax IR, by its body (parameters substituted, early `return;` turned into an else branch), so that the rules which read how an
+    appender writes and counts, or how the reader samples positions, see the same statements whether or not a helper was extracted."""
+    import copy
+    helpers = {}
+    for g in idx.fns:
+        if not g.body or g.base not in bases or g.node.get("vis") or g.trait or len(g.body.get("stmts", [])) > 12:
+            continue
+        pn = g.param_names()
+        if not pn or pn[0] != "self" or any(p is None for p in pn):
+            continue
+        if any(n.get("k") == "mcall" and n["m"] == g.name for n in sir.walk(g.body)):
+            continue
+        rets = [n for n in sir.walk(g.body, into_closures=False) if n.get("k") == "return"]
+        body = dict(g.body, stmts=_dereturn(g.body["stmts"]))
+        if any(n.get("k") == "return" for n in sir.walk(body, into_closures=False)):
+            continue     # a return that cannot be expressed as an else branch: leave the call alone
+        helpers[(g.base, g.name)] = (g, pn, body)
+    count = 0
+    for f in idx.fns:
+        if not f.body or f.base not in bases:
+            continue
+        for n in list(sir.walk(f.body)):
+            if n.get("k") != "mcall" or (f.base, n["m"]) not in helpers or sir.expr_str(n["recv"]) != "self" or f.name == n["m"]:
+                continue
+            g, pn, body = helpers[(f.base, n["m"])]
+            if len(n["args"]) != len(pn) - 1:
+                continue
+            subst = dict(zip(pn[1:], n["args"]))
+            b = copy.deepcopy(body)
+            for x in list(sir.walk(b)):
+                if x.get("k") == "path" and len(x["segs"]) == 1 and x["segs"][0] in subst:
+                    rep = copy.deepcopy(subst[x["segs"][0]])
+                    x.clear()
+                    x.update(rep)
+            if len(b.get("stmts", [])) == 1 and b["stmts"][0].get("k") == "expr" and not b["stmts"][0].get("semi") and isinstance(b["stmts"][0].get("e"), dict):
+                b = b["stmts"][0]["e"]      # a one-expression helper is that expression
+            n.clear()
+            n.update(b)
+            g.inlined = True
+            count += 1
+    return count
